@@ -18,7 +18,7 @@ class FeatureIDEWriter(ModelToText):
                  ASTOperation.XOR: FeatureIDEReader.TAG_ALT,
                  ASTOperation.IMPLIES: FeatureIDEReader.TAG_IMP,
                  ASTOperation.REQUIRES: FeatureIDEReader.TAG_IMP,
-                 ASTOperation.EXCLUDES: FeatureIDEReader.TAG_IMPN,
+                 ASTOperation.EXCLUDES: FeatureIDEReader.TAG_IMP,
                  ASTOperation.EQUIVALENCE: FeatureIDEReader.TAG_EQ}
 
     @staticmethod
@@ -124,6 +124,9 @@ def _get_ctc_info(ast_node: Node) -> dict[str, Any]:
         operands.append(left)
         if ast_node.right is not None:
             right = _get_ctc_info(ast_node.right)
+            if ast_node.data == ASTOperation.EXCLUDES:
+                # A excludes B is written as A => not B
+                right = {'type': FeatureIDEReader.TAG_NOT, 'operands': [right]}
             operands.append(right)
         ctc_info['operands'] = operands
     return ctc_info
